@@ -54,6 +54,8 @@ var invalidHeaderFields = [...]string{
 func parseHeaders(decodeFn qpack.DecodeFunc, isRequest bool, sizeLimit int, headerFields *[]qpack.HeaderField) (header, error) {
 	hdr := header{Headers: make(http.Header)}
 	var readFirstRegularHeader, readContentLength bool
+	// pseudo headers are allowed to appear exactly once, even with an empty value
+	var seenPath, seenMethod, seenAuthority, seenProtocol, seenScheme, seenStatus bool
 	var contentLengthStr string
 	for {
 		h, err := decodeFn()
@@ -85,22 +87,28 @@ func parseHeaders(decodeFn qpack.DecodeFunc, isRequest bool, sizeLimit int, head
 			var isDuplicatePseudoHeader bool // pseudo headers are allowed to appear exactly once
 			switch h.Name {
 			case ":path":
-				isDuplicatePseudoHeader = hdr.Path != ""
+				isDuplicatePseudoHeader = seenPath
+				seenPath = true
 				hdr.Path = h.Value
 			case ":method":
-				isDuplicatePseudoHeader = hdr.Method != ""
+				isDuplicatePseudoHeader = seenMethod
+				seenMethod = true
 				hdr.Method = h.Value
 			case ":authority":
-				isDuplicatePseudoHeader = hdr.Authority != ""
+				isDuplicatePseudoHeader = seenAuthority
+				seenAuthority = true
 				hdr.Authority = h.Value
 			case ":protocol":
-				isDuplicatePseudoHeader = hdr.Protocol != ""
+				isDuplicatePseudoHeader = seenProtocol
+				seenProtocol = true
 				hdr.Protocol = h.Value
 			case ":scheme":
-				isDuplicatePseudoHeader = hdr.Scheme != ""
+				isDuplicatePseudoHeader = seenScheme
+				seenScheme = true
 				hdr.Scheme = h.Value
 			case ":status":
-				isDuplicatePseudoHeader = hdr.Status != ""
+				isDuplicatePseudoHeader = seenStatus
+				seenStatus = true
 				hdr.Status = h.Value
 				isResponsePseudoHeader = true
 			default:
